@@ -71,7 +71,7 @@ RULE = (
     'other CIDs/sdp/rfcomm/at/athf/avdtp/avctp/hci) and a sequence of 1..20 frames, each a valid PDU of the '
     'target protocol (registry-built with vlib.specgen or captured from the set-up traffic of the same world) '
     'with 1..4 structure-aware mutations (truncate, extend, bit flip, length field 0/max/len+-1, duplicate, '
-    'SDP sequences nested 1..1500 deep, ACL PB-flag permutations and L2CAP length lies, AT lines split / '
+    'SDP sequences nested 1..1500 deep with 0..2 siblings per level, ACL PB-flag permutations and L2CAP length lies, AT lines split / '
     'unterminated / over-long / invalid UTF-8) or plain random bytes; every frame is processed to quiescence '
     'under the event budget; then one reference request per protocol. non-trivial = at least one frame is a '
     'mutated valid PDU, or the victim replied to a frame, or a frame raised inside the stack; distinct by '
@@ -964,7 +964,8 @@ def _registry(chan: str, info: dict):
                 continuation_state=b'\x00')),
         ]
         hand_out.append(st.sampled_from(hand))
-        hand_out.append(st.tuples(NEST_DEPTH, st.sampled_from([0x35, 0x36, 0x37, 0x3D, 0x3E]), st.sampled_from([2, 4, 6]))
+        hand_out.append(st.tuples(NEST_DEPTH, st.sampled_from([0x35, 0x36, 0x37, 0x3D, 0x3E]), st.sampled_from([2, 4, 6]),
+                                  st.sampled_from([0, 0, 1, 2]))
                    .map(lambda t: sdp_nested(*t)))
     if chan == 'avdtp':
         seid = info.get('seid', 1)
@@ -1051,10 +1052,12 @@ def _empty_credit_frame(cr: int, dlci: int) -> bytes:
     return head + bytes([0x01, r.compute_fcs(head)])
 
 
-def sdp_nested(depth: int, kind: int, pdu_id: int) -> bytes:
-    """An SDP request whose service search pattern is a sequence nested `depth` deep."""
+def sdp_nested(depth: int, kind: int, pdu_id: int, siblings: int = 0) -> bytes:
+    """An SDP request whose service search pattern is a sequence nested `depth` deep; every level holds `siblings`
+    other elements (NIL) in front of the nested container."""
     inner = bytes([0x19, 0x11, 0x01])
     for _ in range(depth):
+        inner = b'\x00' * siblings + inner
         n = len(inner)
         if kind in (0x35, 0x3D) and n < 256:
             inner = bytes([kind, n]) + inner
@@ -1897,8 +1900,8 @@ def parser_strategy(target: str):
         r_, h_ = _registry(reg, {'vhandle': 1, 'captured': {}})
         base += [pick(st.one_of(*r_), st.one_of(*h_)) if r_ and h_ else st.one_of(*(r_ + h_))]
     if target == 'sdp_data_element':
-        base.append(st.tuples(NEST_DEPTH, st.sampled_from([0x35, 0x36, 0x37, 0x3D])).map(
-            lambda t: sdp_nested(t[0], t[1], 6)[5:-10]))
+        base.append(st.tuples(NEST_DEPTH, st.sampled_from([0x35, 0x36, 0x37, 0x3D]), st.sampled_from([0, 0, 1, 2])).map(
+            lambda t: sdp_nested(t[0], t[1], 6, t[2])[5:-10]))
     seed = st.one_of(*base)
     return st.one_of(seed.flatmap(lambda s: mutated(chan, s)).map(lambda fr: fr[0]),
                      seed.flatmap(lambda s: mutated(chan, s)).map(lambda fr: fr[0]), seed,
